@@ -443,7 +443,7 @@ impl<'s> M<'s> {
     }
 
     pub fn eval(&self, t: &T, env: &Env, pv: &PV, k: K) -> Ctl {
-        if !self.st.burn() {
+        if !self.st.burn() || too_big(&pv.v) {
             return Ctl::Fuel;
         }
         let d = self.st.depth.get();
@@ -988,7 +988,7 @@ impl<'s> M<'s> {
 
     /// `v | (t |= u)`
     pub fn upd(&self, t: &T, env: &Env, v: &RVal, u: U, k: KV) -> Ctl {
-        if !self.st.burn() {
+        if !self.st.burn() || too_big(v) {
             return Ctl::Fuel;
         }
         let d = self.st.depth.get();
@@ -1345,6 +1345,33 @@ fn is_simple(t: &T) -> bool {
                 })
         }
     }
+}
+
+/// values beyond this many nodes are outside the model's scope (the case is reported as undecided)
+const MAX_NODES: usize = 600;
+
+fn too_big(v: &RVal) -> bool {
+    fn go(v: &RVal, left: &mut usize) -> bool {
+        if *left == 0 {
+            return true;
+        }
+        *left -= 1;
+        match v {
+            RVal::Arr(a) => a.iter().any(|x| go(x, left)),
+            RVal::Obj(o) => o.iter().any(|(k, x)| go(k, left) || go(x, left)),
+            RVal::Str(b, _) => {
+                let n = b.len() / 16;
+                if n >= *left {
+                    true
+                } else {
+                    *left -= n;
+                    false
+                }
+            }
+            _ => false,
+        }
+    }
+    matches!(v, RVal::Arr(_) | RVal::Obj(_) | RVal::Str(..)) && go(v, &mut { MAX_NODES })
 }
 
 fn pat_simple(p: &Pat) -> bool {
